@@ -5,6 +5,7 @@ import json, sys, glob, os
 rnd = int(sys.argv[1])
 props = [json.loads(l) for l in open('/verif/properties.jsonl')]
 GUIDE = {
+ 7: ("look at BOUNDARIES and ERROR PATHS: the first and the last block of a period (a cycle, a reward year, a deadline, a maturity or release time, height 1, the fork height), equal-versus-strictly-greater comparisons, an amount that is exactly the balance / exactly the minimum / exactly zero, a list with exactly one or exactly the maximum number of elements; code that handles a FAILURE (a refused transfer in the middle of a multi-step handler, an error from a store that is logged and ignored, a handler that returns success after a partial effect, a rollback that forgets one of several writes); the ORDER of the hooks inside BeginBlock and EndBlock and what one hook assumes another has already done; and transaction kinds or fields that are rarely used (network delegation, reward withdrawal, release of a frozen validator, sale and renewal of names, cancel and withdraw of proposals, the external bid app, ERC-20 paths)"),
  6: ("think about the GLUE around the logic a test author concentrates on: how records are serialised and parsed back (field tags, omitted/zero fields, pointer vs value, big numbers as strings), how store keys and "
      "prefix ranges are built (separators, case, padding, reversed names, iterator start/end), integer conversions and boundaries (int64 vs big.Int vs string vs float, truncating division, off-by-one at a height, "
      "a deadline or a count), iterators that stop early or skip an element, an error that is swallowed or returned too late, a defer that runs in the wrong order, a shared slice or map that is appended to in place, "
